@@ -88,6 +88,7 @@ def run(chk, tier):
         E.eval_table(chk, F, 'R12.3', cfg)
         outputs.variant_maps(chk, F, 'R12.3.composite', cfg)
         outputs.conversion_flavour(chk, F, 'R12.6', cfg)
+        outputs.tuple_slots(chk, F, 'R12.8', cfg)
         # ---- R12.4
         leaks.census(chk, F, 'R12.4', cfg)
         if cfg != 'nostd':
